@@ -1,6 +1,7 @@
 (* C19 — property theorems only: each closed by [exact] and followed by Print Assumptions. *)
 From Coq Require Import List Arith NArith ZArith.
-From AV Require Import Base.Bytes Model.C19_Bits Proofs.C19_Chunks Proofs.C19_Masks Proofs.C19_LowBit Proofs.C19_IndexIter Proofs.C19_Remainder.
+From AV Require Import Base.Bytes Model.C19_Bits Proofs.C19_Chunks Proofs.C19_Masks Proofs.C19_LowBit Proofs.C19_IndexIter Proofs.C19_Remainder Proofs.C19_Unaligned.
+Import ListNotations.
 Local Open Scope N_scope.
 
 (* Chunk iteration: bit j of the n-th u64 yielded by BitChunks::iter is exactly bit 64n+j of the
@@ -60,3 +61,21 @@ Theorem remainder_spec : forall (bs : list N) (off len j : nat),
   = if (j <? len mod 64)%nat then nth (64 * (len / 64) + j)%nat (bits_range bs off len) false else false.
 Proof. exact remainder_bits_spec. Qed.
 Print Assumptions remainder_spec.
+
+(* UnalignedBitChunk::new when the addressed bytes fit in one u64 (ranges of up to 64 - offset%8 bits): for every
+   buffer, pointer alignment, offset and length the constructor yields exactly one word whose bits [lead, lead+len)
+   are the addressed bits and whose other bits are zero, with lead = offset mod 8 and trailing padding 64-(len+lead).
+   (The two-word and align_to cases are tied to the code by the correspondence suite c19.unaligned and by the
+   list-of-bool specifications of every iterator built on them; no theorem yet.) *)
+Theorem unaligned_single_word_case : forall (bs : list N) (align off len : nat),
+  wf_bytes bs -> (0 < len)%nat ->
+  let lead := (off mod 8)%nat in
+  let bytes_len := ((len + lead + 7) / 8)%nat in
+  (bytes_len <= 8)%nat -> (off / 8 + bytes_len <= length bs)%nat ->
+  let u := ubc_new bs align off len in
+  u_lead u = N.of_nat lead /\ u_trail u = 64 - N.of_nat (len + lead) /\ u_chunks u = [] /\ u_suffix u = None /\
+  exists p, u_prefix u = Some p /\
+    forall i, (i < 64)%nat ->
+      N.testbit p (N.of_nat i) = ((lead <=? i)%nat && (i <? lead + len)%nat && bit_at bs (8 * (off / 8) + i))%bool.
+Proof. exact unaligned_single_word. Qed.
+Print Assumptions unaligned_single_word_case.
